@@ -138,6 +138,16 @@ def main(tier, replay=None):
     nev = nfail = nrec = nbg = 0
     kinds = {}
     distinct = set()
+    per_key = {}
+
+    def violation(key, what, rr):
+        # (the replay file keeps 50 entries: at most 4 per key — the attributed single-operation plans first —
+        #  so that every distinct finding of a run is in it)
+        per_key[key] = per_key.get(key, 0) + 1
+        if per_key[key] <= 4:
+            c.violation(key, what, rr)
+
+    found = []
     for l in runs:
         f = l.split(" ")
         h, rid = f[1], f[2]
@@ -154,10 +164,12 @@ def main(tier, replay=None):
                 distinct.add(rid + "|" + k)
         if " VIOL " in l:
             key, what = l.split(" VIOL ", 1)[1].split(" ", 1)
-            c.violation(key, "history %s run %s: %s" % (h, rid, what[:1500]), rerun(h, rid))
+            found.append((0 if kv.get("plan") == "attributed" else 1, key, "history %s run %s: %s" % (h, rid, what[:1500]), rerun(h, rid)))
     for l in traces:
         _, h, rid, key, what = l.split(" ", 4)
-        c.violation(key, "history %s run %s: %s" % (h, rid, what[:1500]), rerun(h, rid))
+        found.append((1, key, "history %s run %s: %s" % (h, rid, what[:1500]), rerun(h, rid)))
+    for _, key, what, rr in sorted(found, key=lambda x: x[0]):
+        violation(key, what, rr)
 
     nq = nquiet = nproc = 0
     bad = {}
@@ -207,6 +219,7 @@ def main(tier, replay=None):
     if harness_err and not c.violations:
         brk = "the harness could not run %d histories/runs: %s" % (len(harness_err), harness_err[0][:600])
     c.coverage.update({
+        "divergences_by_key": per_key,
         "evaluations": nev,
         "distinct_nontrivial": len(distinct),
         "rule": "one evaluation = one operation of a replayed history executed with an injected storage fault (create, new address, restore from mnemonic, "
